@@ -430,8 +430,74 @@ func genSpec(seed uint64, worker, run int, tier string) (*Spec, *Rng, faultSet) 
 		}
 		s.Tasks = append(s.Tasks, ops)
 	}
-	s.Order = r.Perm(nt)
+	if r.Chance(0.08) {
+		g.sweep(s, hot, fs)
+	}
+	s.Order = r.Perm(len(s.Tasks))
 	return s, r, fs
+}
+
+// allMethods is every operation the driver knows, for sweep workloads.
+func allMethods() []string {
+	var ms []string
+	ms = append(ms, mObjArg...)
+	ms = append(ms, mSpatialV...)
+	ms = append(ms, mSpatialG...)
+	ms = append(ms, "JSON", "String", "AppendJSON", "MarshalJSON", "Members")
+	ms = append(ms, "Empty", "Valid", "Rect", "Center", "NumPoints", "Spatial", "IsPoint", "TypeSpecific", "Children", "Indexed")
+	ms = append(ms, "ForEach", "Search", "S.Search")
+	ms = append(ms, mSeries...)
+	for _, m := range mGeom {
+		ms = append(ms, "P."+m, "L."+m)
+	}
+	return ms
+}
+
+// sweep replaces the drawn workload by a systematic one: two or three tasks
+// each execute EVERY method once, in shuffled order, on the same hot object
+// (optionally on the same derived/child object). One such run exposes, to the
+// race oracle, every pair of methods on that object.
+func (g *gen) sweep(s *Spec, hot []int, fs faultSet) {
+	r := g.r
+	h := hot[0]
+	var path []int
+	if r.Chance(0.4) {
+		path = []int{r.Intn(100)}
+		if r.Chance(0.3) {
+			path = append(path, r.Intn(100))
+		}
+	}
+	nt := r.Pick(2, 2, 3)
+	ms := allMethods()
+	s.Tasks = nil
+	for t := 0; t < nt; t++ {
+		perm := r.Perm(len(ms))
+		ops := make([]Op, 0, len(ms))
+		for _, k := range perm {
+			op := g.op(s.Pool, hot, fs, false)
+			op.M = ms[k]
+			op.R = h
+			op.Path = append([]int(nil), path...)
+			op.Prefix, op.Cap = "", 0
+			if usesCallback(op.M) {
+				op.CB = &CB{} // plain visiting (an abandoned task would cut the sweep short)
+				if fs.cancel && r.Chance(0.2) {
+					op.CB.CancelAt = r.Range(1, 4)
+				}
+				if op.M != "ForEach" && r.Chance(0.7) {
+					op.Rect = [4]float64{-180, -90, 180, 90}
+				}
+			} else {
+				op.CB = nil
+			}
+			if len(op.M) > 2 && op.M[2:] == "Move" {
+				op.Pt = [2]float64{r.Coord(-3, 3), r.Coord(-3, 3)}
+			}
+			ops = append(ops, op)
+		}
+		s.Tasks = append(s.Tasks, ops)
+	}
+	s.Strategy = "sweep"
 }
 
 type absDecision struct {
@@ -448,6 +514,11 @@ func finalizeSchedule(s *Spec, r *Rng, fs faultSet, soloSteps int64) {
 		total = 4
 	}
 	var abs []absDecision
+	pre := ""
+	if s.Strategy == "sweep" {
+		pre = "sweep+"
+	}
+	defer func() { s.Strategy = pre + s.Strategy }()
 	switch k := r.Intn(100); {
 	case k < 8:
 		s.Strategy = "none"
